@@ -1031,8 +1031,90 @@ def friendly_names_stream(ctx, res):
                             dict(case, ref_path=err.ref_path, text=str(err)[:120]))
 
 
+def virtual_and_key_decoding_stream(ctx, res):
+    """(a) a virtual field with a setter that REJECTS what a document (or an assignment) gives it — a wrong type, a missing part — is a
+    rejection like any other: the library's error, with the full path, also inside list items; (b) a typed dict whose KEY field has
+    an on-disk form that can fail to decode (hex bytes, an application's date field): an undecodable key in a loaded document is
+    reported with the entry's key in the path, at the root of a section and inside list items"""
+    import datetime
+    import cincoconfig as cc
+
+    def set_address(cfg, value):
+        host, _, port = value.partition(":")           # AttributeError for anything but text
+        if not port:
+            raise KeyError("port")
+        cfg.host, cfg.port = host, int(port)
+    listen = cc.Schema()
+    listen.host = cc.StringField(default="h")
+    listen.port = cc.IntField(default=1)
+    listen.address = cc.VirtualField(lambda c: "%s:%s" % (c.host, c.port), setter=set_address)
+    s = cc.Schema()
+    s.srv.listen = listen
+    s.srv.peers = cc.ListField(listen, default=lambda: [])
+    for label, do, want in (("load_tree int", lambda c: c.load_tree({"srv": {"listen": {"address": 5}}}), "srv.listen.address"),
+                            ("load_tree no port", lambda c: c.load_tree({"srv": {"listen": {"address": "hostonly"}}}), "srv.listen.address"),
+                            ("json list item", lambda c: c.loads(b'{"srv": {"peers": [{"address": "a:1"}, {"address": "b:x"}]}}', format="json"), "srv.peers[1].address"),
+                            ("attribute", lambda c: setattr(c.srv.listen, "address", 5), "srv.listen.address"), ("dotted", lambda c: c.__setitem__("srv.listen.address", "x"), "srv.listen.address"),
+                            ("append map", lambda c: c.srv.peers.append({"address": None if False else 7}), "srv.peers[0].address")):
+        cfg = s()
+        try:
+            do(cfg)
+            err = None
+        except Exception as e:  # noqa
+            err = e
+        case = {"stream": "virtual-rejection", "route": label, "expected": want}
+        res.case(stable(case), kind="virtual-rejection")
+        if err is None:
+            res.violate("C15:position:accepted", "a value the virtual field's setter rejects was accepted", case)
+        elif not isinstance(err, cc.ValidationError):
+            res.violate("C15:not-validation-error", "a value rejected by a virtual field's setter surfaced as %s" % type(err).__name__, case)
+        elif err.ref_path != want:
+            res.violate("C15:wrong-path:virtual", "the rejection of a virtual field's value does not name the full path", dict(case, ref_path=err.ref_path))
+
+    class DateField(cc.Field):
+        storage_type = datetime.date
+
+        def _validate(self, cfg, value):
+            if isinstance(value, datetime.date):
+                return value
+            raise ValueError("not a date")
+
+        def to_basic(self, cfg, value):
+            return value.isoformat()
+
+        def to_python(self, cfg, value):
+            return datetime.date.fromisoformat(value) if isinstance(value, str) else value
+    shift = cc.Schema()
+    shift.closed = cc.DictField(DateField(), cc.StringField(), default=dict)
+    t = cc.Schema()
+    t.plant.line.quota = cc.DictField(DateField(), cc.IntField(), default=dict)
+    t.plant.line.badges = cc.DictField(cc.BytesField(encoding="hex"), cc.StringField(), default=dict)
+    t.plant.shifts = cc.ListField(shift, default=lambda: [])
+    for label, tree, want in (("date key", {"plant": {"line": {"quota": {"2026-01-05": 3, "next week": 1}}}}, "plant.line.quota[next week]"),
+                              ("hex key", {"plant": {"line": {"badges": {"0a": "x", "zz": "y"}}}}, "plant.line.badges[zz]"),
+                              ("date key in a list item", {"plant": {"shifts": [{"closed": {}}, {"closed": {"24.12.": "eve"}}]}}, "plant.shifts[1].closed[24.12.]")):
+        for route in ("load_tree", "json"):
+            cfg = t()
+            try:
+                if route == "load_tree":
+                    cfg.load_tree(tree)
+                else:
+                    cfg.loads(json.dumps(tree).encode(), format="json")
+                err = None
+            except Exception as e:  # noqa
+                err = e
+            case = {"stream": "key-decoding", "what": label, "route": route, "expected": want}
+            res.case(stable(case), kind="key-decoding")
+            if err is None:
+                res.violate("C15:position:accepted", "an undecodable dict key was accepted", case)
+            elif not isinstance(err, cc.ValidationError):
+                res.violate("C15:not-validation-error", "an undecodable dict key surfaced as %s" % type(err).__name__, case)
+            elif err.ref_path != want:
+                res.violate("C15:wrong-path:dict-key", "the rejection of a dict entry whose key cannot be decoded does not name the entry's key in the path", dict(case, ref_path=err.ref_path))
+
 def run(ctx, n_quick=250, n_thorough=8000):
     res = Result()
+    guard(res, "C15", virtual_and_key_decoding_stream, ctx, res)
     guard(res, "C15", lambda: P.run_stream(ctx, res, "C15", ctx.n(n_quick, n_thorough), oracle, gen_ops=gen_ops, ops_len=(8, 20)))
     guard(res, "C15", doc_stream, ctx, res, ctx.n(40, 1500))
     guard(res, "C15", include_docs, ctx, res)
